@@ -378,10 +378,14 @@ def state_clause(vals, kind, clause, comp=None, name=None):
         return True
     ncell = 3
     Aval = 1.7
-    model = build_model(kind, vals, sectionlaw=(lambda x: Aval + 0 * x))
+    law = (lambda x: Aval + 0.6 * x) if (kind == "nozzle" and clause == "variable") else (lambda x: Aval + 0 * x)
+    model = build_model(kind, vals, sectionlaw=law)
+    xc = None
     if kind == "nozzle":
         import flowdyn.mesh as mesh
-        model.initdisc(mesh.unimesh(ncell=ncell, length=1.0))
+        msh = mesh.unimesh(ncell=ncell, length=1.0)
+        model.initdisc(msh)
+        xc = np.asarray(msh.centers(), dtype=float)
     Q = cons_arrays(kind, prim_to_cons(kind, W, vals), ncell)
     if clause == "variable":
         try:
@@ -391,6 +395,13 @@ def state_clause(vals, kind, clause, comp=None, name=None):
             return False
         r = np.asarray(r, dtype=float)
         ref = var_definitions(kind, W, vals, A=Aval).get(name)
+        if kind == "nozzle" and ref is not None and not isinstance(ref, tuple):
+            # quantities proportional to the section are compared with the section at each cell centre (varying law)
+            r1, r2 = var_definitions(kind, W, vals, A=1.0).get(name), var_definitions(kind, W, vals, A=2.0).get(name)
+            if r1 is not None and abs(r2 - r1) > 1e-14 * max(1.0, abs(r1)):
+                refc = [r1 * law(x) for x in xc]
+                show(kind=kind, name=name, W=W, shape=r.shape, value=r.reshape(-1)[:4].tolist(), definition_per_cell=refc)
+                return r.shape == (ncell,) and close(r, refc)
         show(kind=kind, name=name, W=W, shape=r.shape, value=r.reshape(-1)[:4].tolist(), definition=ref)
         if ref is None:
             return True
@@ -649,10 +660,12 @@ def recon_clause(vals, num, limiter, bc, clause="linear"):
         L, R = faces(d)
         ok = ok and close(L[1:], d) and close(R[:-1], d)
     else:
-        L, R = faces(al * msh.xc + be)
-        ex = al * msh.xf + be
-        if n >= 4:
-            ok = ok and close(L[2:n], ex[2:n]) and close(R[1:n - 1], ex[1:n - 1])
+        for al_ in (al, -al, 0.3 * al, -0.3 * al):        # increasing and decreasing profiles
+            L, R = faces(al_ * msh.xc + be)
+            ex = al_ * msh.xf + be
+            if n >= 3 and not (close(L[2:n], ex[2:n]) and close(R[1:n - 1], ex[1:n - 1])):
+                show(num=num, limiter=limiter, bc=bc, n=n, slope=al_, left_states=np.asarray(L[2:n]).tolist()[:4], exact=np.asarray(ex[2:n]).tolist()[:4])
+                ok = False
     show(num=num, limiter=limiter, bc=bc, n=n, alpha=al, beta=be, ok=ok)
     return bool(ok)
 
@@ -974,7 +987,20 @@ def implicit_clause(vals, integrator, n, neq, clause=None):
     show(integrator=integrator, relative_error_of_one_step=err, time_advance=(f.time - t0) / dt)
     if clause == "time":
         return close(f.time, t0 + dt)
-    return err <= 1e-6 and close(f.time, t0 + dt)
+    ok = err <= 1e-6 and close(f.time, t0 + dt)
+    if integrator == "gear":
+        # further steps against the exact BDF2 recurrence (3I - 2dt A) Q_{n+1} = 4 Q_n - Q_{n-1}
+        qm, qn = q0, ref.copy()
+        for k in range(2, 6):
+            s.step(f, dt)
+            qp = np.linalg.solve(3 * I - 2 * dt * Aop, 4 * qn - qm)
+            e = float(np.max(np.abs(f.data[0] - qp)) / np.max(np.abs(qp)))
+            if e > 1e-6:
+                show(integrator=integrator, step=k, relative_deviation_from_the_BDF2_recurrence=e)
+                ok = False
+                break
+            qm, qn = qn, qp
+    return ok
 
 
 def fd_step_clause(vals):
@@ -1112,7 +1138,19 @@ def purity_clause(vals, clause, integrator=None):
         b = cls(msh, disc).solve(f0, cfl, stop={"maxit": 7})[-1].data[0].copy()
         its_r, its_a = mons["res"]["output"]._it, mons["avg"]["output"]._it
         show(integrator=name, residual_its=its_r, average_its=its_a, difference=float(np.max(np.abs(a - b))))
-        return bool(np.all(a == b)) and its_r == [0, 3, 6] and its_a == [0, 2, 4, 6]
+        ok = bool(np.all(a == b)) and its_r == [0, 3, 6] and its_a == [0, 2, 4, 6]
+        # split run: solve(7) then restart(8) with the same monitors records at the multiples of the frequency of the CUMULATIVE count
+        mons2 = {"res": {"type": "residual", "frequency": 3}, "avg": {"type": "data_average", "data": "q", "frequency": 5}}
+        s2 = cls(msh, disc)
+        mid = s2.solve(f0, cfl, stop={"maxit": 7}, monitors=mons2)[-1]
+        s2.restart(mid, cfl, stop={"maxit": 8}, monitors=mons2)
+        r2, a2 = list(mons2["res"]["output"]._it), list(mons2["avg"]["output"]._it)
+        want_r = [k for k in range(0, 16) if k % 3 == 0]
+        want_a = [k for k in range(0, 16) if k % 5 == 0]
+        if sorted(set(r2)) != want_r or sorted(set(a2)) != want_a:
+            show(integrator=name, after_restart_residual_its=r2, expected=want_r, after_restart_average_its=a2, expected_average=want_a)
+            ok = False
+        return ok
     return True
 
 
